@@ -63,6 +63,34 @@ func safeRun(p *Prop, c string) string {
 
 var caseTimeout = 10 * time.Second
 
+// runCase runs one case; when an in-process instance died under it without the harness having stopped it (busDeaths), the
+// property's instances are started afresh and the case is run again, at most twice: a death that repeats is reported as
+// observed. An instance that died between two cases is replaced before the next one starts.
+var busDeathsSeen int64
+
+func runCase(p *Prop, c string) string {
+	restart := func() {
+		if p.Done != nil {
+			p.Done()
+		}
+		if p.Init != nil {
+			p.Init()
+		}
+		busDeathsSeen = atomic.LoadInt64(&busDeaths)
+	}
+	for attempt := 0; ; attempt++ {
+		if atomic.LoadInt64(&busDeaths) != busDeathsSeen {
+			fmt.Fprintln(os.Stderr, "an instance ended by itself: instances started afresh")
+			restart()
+		}
+		obs := safeRun(p, c)
+		if atomic.LoadInt64(&busDeaths) == busDeathsSeen || attempt >= 2 {
+			return obs
+		}
+		fmt.Fprintln(os.Stderr, "an instance ended by itself while a case was running: the case is run again")
+	}
+}
+
 // memWatch ends the process when the code under test allocates without bound: more than 6 GB of live heap gained
 // while ONE case runs (VERIF_MEMLIMIT_MB overrides), or 40 GB in all. The run is then localised to the case like any other
 // crash, instead of taking the machine down. (A limit on the total alone was a false alarm: a process that runs thousands
@@ -145,7 +173,7 @@ func main() {
 	case "gen":
 		r := rand.New(rand.NewSource(*seed))
 		for _, c := range p.Gen(r, *n, *tier) {
-			fmt.Fprintf(w, "%s %s => %s\n", id, c, safeRun(p, c))
+			fmt.Fprintf(w, "%s %s => %s\n", id, c, runCase(p, c))
 			if flushEach {
 				w.Flush()
 			}
@@ -163,7 +191,7 @@ func main() {
 				continue
 			}
 			c := strings.TrimPrefix(line, id+" ")
-			fmt.Fprintf(w, "%s %s => %s\n", id, c, safeRun(p, c))
+			fmt.Fprintf(w, "%s %s => %s\n", id, c, runCase(p, c))
 			if flushEach {
 				w.Flush()
 			}
